@@ -55,12 +55,12 @@ VH_DRIVER(query){
   for(int nb=0;nb<2;++nb){ Text full= nb? Text{13,10,13}: Text{'&','=',255}; lists.push_back({{full,true,{}}}); lists.push_back({{{},true,{}}}); lists.push_back({{{},true,full},{full,false,{}}}); lists.push_back({{full,true,full},{{},true,{}},{full,true,{}}}); }
   size_t total=lists.size()*4; double keep= total*12>(size_t)want? (double)want/(total*12):1.0; long k=0;
   for(auto&l:lists) for(int sp=0;sp<2;++sp) for(int nb=0;nb<2;++nb){ ++k; if(keep<1.0 && (R.next()%1000000)>=keep*1000000) continue; bool allcaps = (k%5==0)||l.size()<=1; int ep=(int)(k%3);
-    if(k%2) compose_events<ApiA>(ar,l,sp,nb,ep,allcaps); else compose_events<ApiW>(ar,l,sp,nb,ep,allcaps); g.count(jq(l)+std::to_string(sp*2+nb),!l.empty()); if(k%3001==0) g.sample(J().str("list",showq(l)).num("sp",sp).num("nb",nb).done()); }
+    AW(true,k%2,[&]{ compose_events<ApiA>(ar,l,sp,nb,ep,allcaps); },[&]{ compose_events<ApiW>(ar,l,sp,nb,ep,allcaps); }); g.count(jq(l)+std::to_string(sp*2+nb),!l.empty()); if(k%3001==0) g.sample(J().str("list",showq(l)).num("sp",sp).num("nb",nb).done()); }
   // dissection of every arrangement of & = a %41 + up to length 5 (6 thorough), plus random
   { std::vector<Text> toks={T("&"),T("="),T("a"),T("%41"),T("+"),T("%0D%0A"),T("%")}; int DL=g.thorough?6:4; std::vector<Text> ins;
     for(int len=0;len<=DL;++len){ std::vector<int> ix(len,0); while(true){ Text t; for(int i=0;i<len;++i) t.insert(t.end(),toks[ix[i]].begin(),toks[ix[i]].end()); ins.push_back(t); int i=len-1; while(i>=0&&++ix[i]==(int)toks.size()){ ix[i]=0; --i; } if(i<0) break; } }
     double kd= ins.size()*2>(size_t)want/3? (double)(want/3)/(ins.size()*2):1.0; long q=0;
-    for(auto&t:ins) for(int ps=0;ps<2;++ps){ ++q; if(kd<1.0 && (R.next()%1000000)>=kd*1000000) continue; int conv=(int)(q%4); if(q%2) dissect_event<ApiA>(ar,t,ps,conv,(int)(q%3)); else dissect_event<ApiW>(ar,t,ps,conv,(int)(q%3)); g.count(jtext(t)+std::to_string(ps),!t.empty()); } }
+    for(auto&t:ins) for(int ps=0;ps<2;++ps){ ++q; if(kd<1.0 && (R.next()%1000000)>=kd*1000000) continue; int conv=(int)(q%4); AW(true,q%2,[&]{ dissect_event<ApiA>(ar,t,ps,conv,(int)(q%3)); },[&]{ dissect_event<ApiW>(ar,t,ps,conv,(int)(q%3)); }); g.count(jtext(t)+std::to_string(ps),!t.empty()); } }
   // size arithmetic at real scale: key and value of 2*10^8 characters each (measuring call only in quick; UBSan makes a signed overflow a crash)
   { size_t n=200u*1000u*1000u; for(int variant=0;variant<2;++variant){ std::string big(n, variant? 'a':'\r'); UriQueryListA item; item.key=big.c_str(); item.value=big.c_str(); item.next=nullptr; int req=-7; g.set_case(J().str("driver","query/giant").num("variant",variant).done());
       for(int nb=0;nb<2;++nb){ int rc=uriComposeQueryCharsRequiredExA(&item,&req,URI_TRUE,nb);
